@@ -3,6 +3,7 @@ mod flw;
 mod handler;
 mod obs;
 mod route;
+mod specx;
 
 use serde_json::Value;
 use std::io::{BufRead, BufWriter, Write};
@@ -87,6 +88,7 @@ fn main() {
             }
             println!("flw scenarios={scs} events={events}");
         }
+        "spec" => specx::run(&args),
         "route" => route::run(&args),
         "route-child" => route::run_child(&args),
         x => {
